@@ -1,10 +1,14 @@
 /-
   Model of the range geometry of every position-carrying feature of internal/server:
 
-    hover.go              astRangeToProtocol, positionInRange, estimatePayeeRange,
+    position.go           columnMapper (lineColumn, position, toProtocol, runePosition): the
+                          conversion between the rune columns of the syntax tree and the UTF-16
+                          characters of LSP, with the lines of the text the tree was parsed from
+    lsputil/mapper.go     RuneOffsetToUTF16, UTF16OffsetToRuneOffset
+    hover.go              positionInRange, estimatePayeeRange,
                           getPayeeOrDescription, findElementAtPosition, findTagAtPosition,
                           Hover (the returned Range)
-    server.go             analyze / publishDiagnostics: the `uint32(x-1)` range construction for
+    server.go             analyze / publishDiagnostics: the range construction for
                           parse errors, analyzer diagnostics and include (load) errors
     definition.go         findDefinitionTarget, findDefinitionLocation and its helpers
                           (single-file setting: the journal map holds the current document only)
@@ -22,9 +26,10 @@
   `List Char` (documents are valid UTF-8), the cursor.  Output: LSP ranges whose four
   components are `UInt32`, so that `uint32(0 - 1) = 4294967295` is in the model.
 
-  Go strings inside the tree are `Bytes`; `lsputil.UTF16Len` of such a string is computed
-  from the UTF-8 lead bytes (`u16lenB`), which is what `for _, r := range s` yields on valid
-  UTF-8.  The byte offsets of completion.go are modelled as char indices: every offset that
+  Go strings inside the tree are `Bytes`; `utf8.RuneCountInString` / `lsputil.UTF16Len` of such
+  a string are computed from the UTF-8 lead bytes (`runeLenB` / `u16lenB`), which is what
+  `for _, r := range s` yields on valid UTF-8.  The mapper is its `lines` field: `List Txt`
+  (`strings.Split(content, "\n")` = `lines doc`).  The byte offsets of completion.go are modelled as char indices: every offset that
   code computes lies next to an ASCII byte or at a line end, hence on a rune boundary, and
   `ByteOffsetToUTF16(line, byteOf k) = u16len (line.take k)`.
 -/
@@ -56,13 +61,24 @@ def Fixes.all : Fixes := ⟨true, true⟩
 /-- `uint32(x - 1)` for a Go `int` `x ≥ 0`: zero wraps to 4294967295. -/
 def m1 (n : Nat) : UInt32 := if n = 0 then 0xFFFFFFFF else UInt32.ofNat (n - 1)
 
-/-- `uint32(max(0, x-1))` (load errors in publishDiagnostics). -/
-def m1z (n : Nat) : UInt32 := UInt32.ofNat (n - 1)
-
-/-- `astRangeToProtocol`; the same arithmetic is written out inline in server.go (analyzer
-    diagnostics) and links.go. -/
-def astRangeToProtocol (r : Rng) : LRange :=
+/-- `astRangeToProtocol` as pinned (before fix-utf16-positions.diff): `column − 1` is copied
+    into the UTF-16 `character`.  Only the `pinned_…` counterexamples mention it. -/
+def astRangeToProtocolPinned (r : Rng) : LRange :=
   ⟨m1 r.start.line, m1 r.start.col, m1 r.stop.line, m1 r.stop.col⟩
+
+/-- `columnMapper.lineColumn`: the character is the UTF-16 length of the first `col − 1` runes
+    of the line (`lsputil.RuneOffsetToUTF16`; a negative count gives 0); without the text of the
+    line the column is passed on unchanged.  `lns` is the mapper (`lines` of the text). -/
+def convChar (lns : List Txt) (line col : Nat) : UInt32 :=
+  if line = 0 then m1 col else
+  match lns[line - 1]? with
+  | some ln => UInt32.ofNat (u16len (ln.take (col - 1)))
+  | none => m1 col
+
+/-- `columnMapper.toProtocol` (hover, definition, references, rename, symbols, links,
+    analyzer diagnostics). -/
+def astRangeToProtocol (lns : List Txt) (r : Rng) : LRange :=
+  ⟨m1 r.start.line, convChar lns r.start.line r.start.col, m1 r.stop.line, convChar lns r.stop.line r.stop.col⟩
 
 /-- A cursor (`protocol.Position`, both components `uint32`). -/
 structure Cur where
@@ -70,7 +86,14 @@ structure Cur where
   char : Nat
 deriving Repr, DecidableEq, Inhabited
 
-/-- `positionInRange`. -/
+/-- `columnMapper.runePosition`: the cursor with its character counted in runes
+    (`lsputil.UTF16OffsetToRuneOffset` = `takeU16`). -/
+def runeCur (lns : List Txt) (c : Cur) : Cur :=
+  match lns[c.line]? with
+  | some ln => ⟨c.line, takeU16 ln c.char⟩
+  | none => c
+
+/-- `positionInRange` (the cursor counts runes). -/
 def positionInRange (c : Cur) (r : Rng) : Bool :=
   let line := c.line + 1
   let col := c.char + 1
@@ -84,13 +107,18 @@ def u16lenB : Bytes → Nat
   | [] => 0
   | b :: bs => (if b < 0x80 || b ≥ 0xC0 then (if b ≥ 0xF0 then 2 else 1) else 0) + u16lenB bs
 
+/-- `utf8.RuneCountInString` of a Go string holding valid UTF-8. -/
+def runeLenB : Bytes → Nat
+  | [] => 0
+  | b :: bs => (if b < 0x80 || b ≥ 0xC0 then 1 else 0) + runeLenB bs
+
 /-- `getPayeeOrDescription`. -/
 def payeeOf (tx : Transaction) : Bytes := if tx.payee ≠ [] then tx.payee else tx.description
 
 /-- `estimatePayeeRange`. -/
 def estimatePayeeRange (tx : Transaction) (payee : Bytes) : Rng :=
   let startCol := tx.date.range.stop.col + 1 + (if tx.status ≠ .none then 2 else 0)
-  ⟨⟨tx.date.range.start.line, startCol, 0⟩, ⟨tx.date.range.start.line, startCol + u16lenB payee, 0⟩⟩
+  ⟨⟨tx.date.range.start.line, startCol, 0⟩, ⟨tx.date.range.start.line, startCol + runeLenB payee, 0⟩⟩
 
 /-- What a reported range is a range *of* (used by the oracle to pick the lexeme). -/
 inductive Kind where
@@ -113,9 +141,13 @@ deriving Repr, DecidableEq, Inhabited, BEq
 
 /-- The two sub-ranges `findTagAtPosition` derives from a tag. -/
 def tagNameRng (t : Tag) : Rng :=
-  let colonCol := t.range.start.col + u16lenB t.name
+  let colonCol := t.range.start.col + runeLenB t.name
   ⟨t.range.start, ⟨t.range.start.line, colonCol, t.range.start.off + t.name.length⟩⟩
+/-- The value is measured back from the end of the tag (fix-tag-value-range.diff). -/
 def tagValueRng (t : Tag) : Rng :=
+  ⟨⟨t.range.stop.line, t.range.stop.col - runeLenB t.value, t.range.stop.off - t.value.length⟩, t.range.stop⟩
+/-- As pinned: the value range starts right after the colon. -/
+def tagValueRngPinned (t : Tag) : Rng :=
   let colonCol := t.range.start.col + u16lenB t.name
   ⟨⟨t.range.start.line, colonCol + 1, t.range.start.off + t.name.length + 1⟩, t.range.stop⟩
 
@@ -124,7 +156,7 @@ def findTagAtPosition (tags : List Tag) (c : Cur) : Option Hit :=
   match tags.find? (fun t => positionInRange c t.range) with
   | none => none
   | some t =>
-    let colonCol := t.range.start.col + u16lenB t.name
+    let colonCol := t.range.start.col + runeLenB t.name
     if c.char + 1 ≤ colonCol then some ⟨.tag, t.name, tagNameRng t, true⟩
     else some ⟨.tagValue, t.value, tagValueRng t, true⟩
 
@@ -153,13 +185,13 @@ def findElementAtPosition (j : Journal) (c : Cur) : Option Hit :=
   j.transactions.findSome? (hoverTx c)
 
 /-- `Hover`: the `Range` of the response (every hover context produces non-empty content). -/
-def hover (j : Journal) (c : Cur) : Option (Hit × LRange) :=
-  (findElementAtPosition j c).map fun h => (h, astRangeToProtocol h.rng)
+def hover (lns : List Txt) (j : Journal) (c : Cur) : Option (Hit × LRange) :=
+  (findElementAtPosition j (runeCur lns c)).map fun h => (h, astRangeToProtocol lns h.rng)
 
 /-! ### Definition, references, rename -/
 
 /-- `nameRange` (references.go): the range of a symbol's lexeme given where it starts. -/
-def nameRange (start : Pos) (name : Bytes) : Rng := ⟨start, ⟨start.line, start.col + u16lenB name, 0⟩⟩
+def nameRange (start : Pos) (name : Bytes) : Rng := ⟨start, ⟨start.line, start.col + runeLenB name, 0⟩⟩
 def accountNameRange (a : Account) : Rng := nameRange a.range.start a.name
 def directiveCommodityRange (c : Commodity) : Rng := nameRange c.range.start c.symbol
 
@@ -196,11 +228,15 @@ def defDirective (c : Cur) : Directive → Option Hit
     else commodityAt c p.commodity
   | _ => none
 
-/-- `findDefinitionTarget` (kind ∈ payee, account, commodity). -/
-def findDefinitionTarget (j : Journal) (c : Cur) : Option Hit :=
+/-- The two loops of `findDefinitionTarget` for a cursor that counts runes. -/
+def findDefinitionTargetR (j : Journal) (c : Cur) : Option Hit :=
   match j.transactions.findSome? (defTx c) with
   | some h => some h
   | none => j.directives.findSome? (defDirective c)
+
+/-- `findDefinitionTarget` (kind ∈ payee, account, commodity): `pos = mapper.runePosition(pos)`. -/
+def findDefinitionTarget (lns : List Txt) (j : Journal) (c : Cur) : Option Hit :=
+  findDefinitionTargetR j (runeCur lns c)
 
 /-- `compareDates a b < 0`. -/
 def dateLt (a b : Date) : Bool :=
@@ -248,12 +284,12 @@ def definitionHit (j : Journal) (t : Hit) : Option Hit :=
   | _ => none
 
 /-- `Definition`. -/
-def definition (j : Journal) (c : Cur) : List (Hit × LRange) :=
-  match findDefinitionTarget j c with
+def definition (lns : List Txt) (j : Journal) (c : Cur) : List (Hit × LRange) :=
+  match findDefinitionTarget lns j c with
   | none => []
   | some t => match definitionHit j t with
     | none => []
-    | some h => [(h, astRangeToProtocol h.rng)]
+    | some h => [(h, astRangeToProtocol lns h.rng)]
 
 /-- The directive part of `findCommodityReferences`. -/
 def commodityRefDirective (sym : Bytes) (decl : Bool) : Directive → List Hit
@@ -313,25 +349,25 @@ def sortAndDedup {α} (l : List (α × LRange)) : List (α × LRange) :=
   dedupAdj (sortStart l)
 
 /-- `References`. -/
-def references (j : Journal) (c : Cur) (decl : Bool) : List (Hit × LRange) :=
-  match findDefinitionTarget j c with
+def references (lns : List Txt) (j : Journal) (c : Cur) (decl : Bool) : List (Hit × LRange) :=
+  match findDefinitionTarget lns j c with
   | none => []
-  | some t => sortAndDedup ((referenceHits j t decl).map fun h => (h, astRangeToProtocol h.rng))
+  | some t => sortAndDedup ((referenceHits j t decl).map fun h => (h, astRangeToProtocol lns h.rng))
 
 /-- `PrepareRename`. -/
-def prepareRename (j : Journal) (c : Cur) : Option (Hit × LRange) :=
-  (findDefinitionTarget j c).map fun t => (t, astRangeToProtocol t.rng)
+def prepareRename (lns : List Txt) (j : Journal) (c : Cur) : Option (Hit × LRange) :=
+  (findDefinitionTarget lns j c).map fun t => (t, astRangeToProtocol lns t.rng)
 
 /-- `Rename`: the ranges of the text edits (one document). -/
-def rename (j : Journal) (c : Cur) : List (Hit × LRange) := references j c true
+def rename (lns : List Txt) (j : Journal) (c : Cur) : List (Hit × LRange) := references lns j c true
 
 /-! ### Outline, workspace symbols, links -/
 
 /-- `DocumentSymbol`: `Range` (= `SelectionRange`) of every symbol, in response order. -/
-def documentSymbols (j : Journal) : List LRange :=
-  j.transactions.map (fun tx => astRangeToProtocol tx.range) ++
-  j.directives.map (fun d => astRangeToProtocol d.range) ++
-  j.includes.map (fun i => astRangeToProtocol i.range)
+def documentSymbols (lns : List Txt) (j : Journal) : List LRange :=
+  j.transactions.map (fun tx => astRangeToProtocol lns tx.range) ++
+  j.directives.map (fun d => astRangeToProtocol lns d.range) ++
+  j.includes.map (fun i => astRangeToProtocol lns i.range)
 
 /-- The payee part of `extractSymbols` (`seen` keeps the first transaction of each payee). -/
 def payeeSymbols : List Bytes → List Transaction → List Hit
@@ -342,16 +378,25 @@ def payeeSymbols : List Bytes → List Transaction → List Hit
       ⟨.payee, p, estimatePayeeRange tx p, true⟩ :: payeeSymbols (p :: seen) rest
     else payeeSymbols seen rest
 
-/-- `extractSymbols` with the empty query. -/
+/-- `extractSymbols` with the empty query (fix-workspace-symbol-end.diff: the end of a declared
+    name is derived from the name, as in references / rename). -/
 def workspaceSymbolHits (j : Journal) : List Hit :=
+  j.directives.filterMap (fun d => match d with
+    | .account a _ _ _ _ => some ⟨.account, a.name, accountNameRange a, true⟩
+    | .commodity cm _ _ _ _ => some ⟨.commodity, cm.symbol, directiveCommodityRange cm, true⟩
+    | _ => none) ++
+  payeeSymbols [] j.transactions
+
+def workspaceSymbols (lns : List Txt) (j : Journal) : List (Hit × LRange) :=
+  (workspaceSymbolHits j).map fun h => (h, astRangeToProtocol lns h.rng)
+
+/-- As pinned: the ranges stored in the tree, which have no End. -/
+def workspaceSymbolHitsPinned (j : Journal) : List Hit :=
   j.directives.filterMap (fun d => match d with
     | .account a _ _ _ _ => some ⟨.account, a.name, a.range, false⟩
     | .commodity cm _ _ _ _ => some ⟨.commodity, cm.symbol, cm.range, false⟩
     | _ => none) ++
   payeeSymbols [] j.transactions
-
-def workspaceSymbols (j : Journal) : List (Hit × LRange) :=
-  (workspaceSymbolHits j).map fun h => (h, astRangeToProtocol h.rng)
 
 /-- UTF-8 decoding of a Go string of the tree (valid UTF-8: it is a piece of the document). -/
 def decodeUtf8 : Bytes → Txt
@@ -376,7 +421,7 @@ def indexOf (pat : Txt) : Txt → Nat → Option Nat
 
 /-- `includePathRange` (fix-link-range.diff): the path's own text on the directive's line. -/
 def includePathRange (doc : Txt) (inc : Include) : LRange :=
-  let whole := astRangeToProtocol inc.range
+  let whole := astRangeToProtocol (lines doc) inc.range
   if inc.range.start.line = 0 then whole else
   match (lines doc)[inc.range.start.line - 1]? with
   | none => whole
@@ -395,16 +440,18 @@ def includePathRange (doc : Txt) (inc : Include) : LRange :=
 /-- `DocumentLink` ranges. -/
 def documentLinks (fx : Fixes) (doc : Txt) (j : Journal) : List LRange :=
   if doc = [] then [] else
-  j.includes.map fun i => if fx.link then includePathRange doc i else astRangeToProtocol i.range
+  j.includes.map fun i => if fx.link then includePathRange doc i else astRangeToProtocol (lines doc) i.range
 
 /-! ### Diagnostics -/
 
 /-- The three loops of analyze / publishDiagnostics, in publication order:
     parse errors (a point), analyzer diagnostics, load errors. -/
-def diagnostics (perrs : List ParseError) (analyzer : List Rng) (load : List Rng) : List LRange :=
-  perrs.map (fun e => (⟨m1 e.pos.line, m1 e.pos.col, m1 e.pos.line, m1 e.pos.col⟩ : LRange)) ++
-  analyzer.map astRangeToProtocol ++
-  load.map (fun r => (⟨m1z r.start.line, m1z r.start.col, m1z r.stop.line, m1z r.stop.col⟩ : LRange))
+def diagnostics (lns : List Txt) (perrs : List ParseError) (analyzer : List Rng) (load : List Rng) : List LRange :=
+  perrs.map (fun e => astRangeToProtocol lns ⟨e.pos, e.pos⟩) ++
+  analyzer.map (astRangeToProtocol lns) ++
+  -- `mapper.lineColumn(max(1, line), max(1, column))`
+  load.map (fun r => astRangeToProtocol lns
+    ⟨⟨max 1 r.start.line, max 1 r.start.col, 0⟩, ⟨max 1 r.stop.line, max 1 r.stop.col, 0⟩⟩)
 
 /-! ### Folding -/
 
@@ -501,22 +548,23 @@ def foldingRanges (fx : Fixes) (doc : Txt) (j : Journal) : List Fold :=
 
 def isDigitC (c : Char) : Bool := '0' ≤ c && c ≤ '9'
 
-/-- `CompletionContextType` as sent by the harness (1 account, 2 payee, 3 commodity). -/
+/-- `CompletionContextType` as sent by the harness (1 account, 2 payee, 3 commodity, 4 tag name). -/
 def ctxOf : Nat → HL.Completion.Ctx
   | 1 => .account
   | 2 => .payee
   | 3 => .commodity
+  | 4 => .tagName
   | _ => .unknown
 
-/-- `calculateTextEditRange` (as repaired upstream by a42bf24: it looks at the text before the
-    cursor only).  The line-level function is the completion builder's transcription
-    `HL.Completion.editRange true` (HL/Model/Completion.lean); here it is placed on the cursor's
-    line and converted to `uint32`. -/
+/-- `calculateTextEditRange` (as repaired: it looks at the text before the cursor only and cuts
+    where `extractQueryText` cuts).  The line-level function is the completion builder's
+    transcription `HL.Completion.editRange` (HL/Model/Completion.lean); here it is placed on the
+    cursor's line and converted to `uint32`. -/
 def textEditRange (doc : Txt) (c : Cur) (ctx : Nat) : Option LRange :=
   match (lines doc)[c.line]? with
   | none => none
   | some line =>
-    (HL.Completion.editRange true (ctxOf ctx) line c.char).map fun se =>
+    (HL.Completion.editRange (ctxOf ctx) line c.char).map fun se =>
       ⟨UInt32.ofNat c.line, UInt32.ofNat se.1, UInt32.ofNat c.line, UInt32.ofNat c.char⟩
 
 /-- `Completion`: the edit range carried by the items (none when there are no items). -/
